@@ -33,10 +33,6 @@ PROPS["C02"] = {
     "rules": ["oracle", "tri_oracle", "tri_both", "load_outcome", "load_panic", "match_panic"],
     "chunk": 1500,
 }
-    "level": "todo",
-    "note": "todo",
-    "technique": "TLA+ language-layer semantics (TauLang) evaluated by TLC on traces recorded from the engine",
-}
 
 DEV_COND = '{}'
 PROPS["C05"] = {
